@@ -40,8 +40,18 @@ func (s *vfSession) setupAgentVsPeer(cfg vfSideCfg, aControlling bool, nA, nP in
 	}
 	if tell {
 		for i, c := range s.P.socks {
+			// signalled priorities span the whole 32-bit range (a peer may use any): below, around and above 2^31
+			prio := uint32(2130706431 - 1000*i) //nolint:gosec
+			switch s.rng.IntN(5) {
+			case 0:
+				prio = 1<<31 + uint32(s.rng.IntN(1<<20)) //nolint:gosec
+			case 1:
+				prio = 1<<32 - 1 - uint32(s.rng.IntN(1<<20)) //nolint:gosec
+			case 2:
+				prio = 2130706432 + uint32(s.rng.IntN(16000000)) //nolint:gosec // above any local host priority, below 2^31
+			}
 			rc, err := NewCandidateHost(&CandidateHostConfig{Network: "udp", Address: c.local.Addr().String(), Port: int(c.local.Port()), Component: 1,
-				Priority: uint32(2130706431 - 1000*i)}) //nolint:gosec
+				Priority: prio})
 			if err != nil {
 				return err
 			}
@@ -87,6 +97,9 @@ func (s *vfSession) peerChaos(n int, peerRole string, nominate bool, values bool
 			sock := p.socks[s.rng.IntN(len(p.socks))]
 			dst := aSocks[s.rng.IntN(len(aSocks))]
 			o := vfReqOpts{Role: peerRole, Tie: p.tie, Priority: uint32(1845501695 + s.rng.IntN(1000))} //nolint:gosec
+			if s.rng.IntN(4) == 0 {
+				o.Priority = 1<<31 + uint32(s.rng.IntN(1<<31)) //nolint:gosec // PRIORITY of a would-be peer-reflexive candidate: any 32-bit value
+			}
 			if nominate && s.rng.IntN(2) == 0 {
 				o.UseCand = true
 				if values && s.rng.IntN(2) == 0 {
@@ -103,6 +116,9 @@ func (s *vfSession) peerChaos(n int, peerRole string, nominate bool, values bool
 			s.step("peer-request", "P", 0, fmt.Sprintf("%s->%s uc=%v nom=%v", sock.local, dst, o.UseCand, o.Nomination != nil))
 			p.send(sock, dst, m.Raw)
 			s.r.set("peer_actions", fmt.Sprintf("request uc=%v nom=%v", o.UseCand, o.Nomination != nil))
+		case k <= 6 && len(held) > 0 && s.peerMute: // a peer that never answers: the agent's own checks run out of retries
+			held = held[1:]
+			s.r.set("peer_actions", "withhold (mute peer)")
 		case k <= 6 && len(held) > 0: // answer one of the agent's checks (possibly late, out of order)
 			j := s.rng.IntN(len(held))
 			d := held[j]
@@ -147,7 +163,12 @@ func vfC03PeerRun(e *vfEnv, r *vfResult, idx int) {
 	s := newVfSession(e, r, idx, "c03peer")
 	defer s.closeAll()
 	mode := s.rng.IntN(4) // 0,1: controlled full; 2: lite controlled; 3: lite controlled with priority check
-	cfg := vfSideCfg{MaxBinding: 1000, TieBreaker: 4242}
+	cfg := vfSideCfg{MaxBinding: []uint16{1000, 1000, 3, 1}[s.rng.IntN(4)], TieBreaker: 4242}
+	// with a small retry budget and a peer that stops answering, pairs reach Failed before a nomination arrives
+	muteFrom := -1
+	if cfg.MaxBinding < 1000 {
+		muteFrom = s.rng.IntN(3)
+	}
 	switch mode {
 	case 2:
 		cfg.Lite = true
@@ -164,7 +185,22 @@ func vfC03PeerRun(e *vfEnv, r *vfResult, idx int) {
 
 		return
 	}
-	s.peerChaos(40+s.rng.IntN(200), "controlling", true, values)
+	switch muteFrom {
+	case 0:
+		s.peerMute = true
+		s.peerChaos(40+s.rng.IntN(200), "controlling", true, values)
+	case 1: // normal, then mute (with extra ticks so that retries run out), then normal again
+		s.peerChaos(20+s.rng.IntN(60), "controlling", true, values)
+		s.peerMute = true
+		for i := 0; i < 2+int(cfg.MaxBinding); i++ {
+			s.tickSide(s.A)
+		}
+		s.peerChaos(20+s.rng.IntN(100), "controlling", true, values)
+		s.peerMute = false
+		s.peerChaos(20+s.rng.IntN(60), "controlling", true, values)
+	default:
+		s.peerChaos(40+s.rng.IntN(200), "controlling", true, values)
+	}
 	s.emittedCheck(0)
 	r.eval(1)
 	r.count("steps", int64(s.stepN))
@@ -174,7 +210,18 @@ func vfC03PeerRun(e *vfEnv, r *vfResult, idx int) {
 
 		return
 	}
-	r.distinct(fmt.Sprintf("peer/mode=%d/values=%v/nA=%d/nP=%d/steps=%d", mode, values, nA, nP, s.stepN/40))
+	failedPairs := 0
+	if sn := s.A.snapshot(); sn.Err == nil {
+		for _, p := range sn.Pairs {
+			if p.State == CandidatePairStateFailed {
+				failedPairs++
+			}
+		}
+	}
+	if failedPairs > 0 {
+		r.count("c03_peer_runs_with_failed_pairs", 1)
+	}
+	r.distinct(fmt.Sprintf("peer/mode=%d/values=%v/nA=%d/nP=%d/steps=%d/maxbind=%d/mute=%d/failedpairs=%v", mode, values, nA, nP, s.stepN/40, cfg.MaxBinding, muteFrom, failedPairs > 0))
 	if idx < 2 {
 		s.A.mu.Lock()
 		sel := append([]string{}, s.A.selEvents...)
